@@ -275,6 +275,21 @@ def sc_refit(d, kind, n1, n2):
     log = getattr(est.estimator_, "fit_log_", [])
     if kind == "classifier" and not keep:
         d.prove(len(log) == 0, "second_fit_uses_a_fresh_estimator", info=dict(fits_seen=len(log)))
+        # the fallback statistics (label counts) are fitted state too: a refit on data without any label predicts like a
+        # fresh object fitted on that data, not from the label counts of the first fit
+        from symx import core
+        Xq = d.arr([[d.fl("q0")]], shape=(1, 1))
+        try:
+            p_used = est.predict_proba(Xq)
+            fresh = SklearnClassifier(_warm_classifier(d.np), classes=[0.0, 1.0]).fit(X2, y2)
+            p_fresh = fresh.predict_proba(Xq)
+        except (core.Unencodable, core.PathAbort):
+            raise
+        except Exception as e:
+            d.prove(False, "refit_without_labels_predicts", info=dict(error=repr(e)[:160]))
+            return
+        d.prove(d.eq_arr(p_used, p_fresh, 1e-12), "refit_without_labels_predicts_like_a_fresh_fit",
+                info=dict(labels_in_first_fit=sum(1 for k in lab1 if k >= 0)))
         d.witness(True, "second_fit_without_labels")
         return
     d.prove(len(log) == 1, "second_fit_uses_a_fresh_estimator", info=dict(fits_seen=len(log)))
